@@ -740,7 +740,14 @@ class Evaluator(CallMixin, StmtMixin):
         memo = self.run.elem_memo
         mk = ("listitem", l.uid, _K(idx) if isinstance(idx, Sym) else idx)
         if mk not in memo:
-            memo[mk] = SObj(f"{l.name or 'list'}[{short(idx)}]", ALL_KINDS, origin=l.origin)
+            items = [i for i in l.items if not isinstance(i, SSplat)] if l.mode == "concrete" else ([l.elt] if l.mode == "map" and getattr(l, "elt", None) is not None else [])
+            if items and all(isinstance(i, (str, SStr)) for i in items) and not any(isinstance(i, SSplat) for i in l.items):
+                # one of several strings, selected by a symbolic index: a plain str whose content is not known
+                o = SObj(f"{l.name or 'list'}[{short(idx)}]", {"STR"}, origin=l.origin)
+                o.meta["origin"] = "UNKNOWN"
+                memo[mk] = o
+            else:
+                memo[mk] = SObj(f"{l.name or 'list'}[{short(idx)}]", ALL_KINDS, origin=l.origin)
         return memo[mk]
 
     def view_elem(self, coll: Any, kinds: Optional[FrozenSet[str]], idx: Any, node: Optional[ast.AST]) -> Any:
@@ -1288,6 +1295,10 @@ class Evaluator(CallMixin, StmtMixin):
         val = self.eval(e.value)
         d = SDict(name=f"dictcomp", concrete=False)
         d.__dict__["comp"] = {"iter": it, "var": var, "key": key, "value": val, "ifs": [norm(c) for c in g.ifs]}
+        if isinstance(val, SObj) and val.kinds:
+            d.__dict__["value_kinds"] = set(val.kinds)     # (a superset: the filter may exclude some of them)
+        elif isinstance(val, (SStr, str)):
+            d.__dict__["value_kinds"] = {"STR"}
         return d
 
     def concrete_items(self, it: Any) -> Optional[List[Any]]:
